@@ -25,6 +25,15 @@ STRENGTHENED = {
  'C14-r3-m1': 'removal-only get_with in the histories', 'C14-r3-m2': 'twins X / X?unapplied-query; == iff uri equality stated in the oracle', 'C14-r3-m3': 'values extending one another by a character below "/" in sorted lists',
  'C17-r3-m2': 'truncation at each byte of a sidecar holding non-ASCII values',
  'C20-r3-m1': 'family member with two equal-depth branches in one basetype', 'C20-r3-m3': 'family member without default leaf key',
+ 'C03-r4-m1': 'Sids made from their own path (via_path): observation, get_as, parent', 'C03-r4-m3': 'caught as written (typed searches with "*" in the type field / nodes named like extensions)',
+ 'C09-r4-m3': 'get_last again after a greater entry was created in the same process',
+ 'C11-r4-m2': 'the search handed over as a Sid object built from the string, on every finder',
+ 'C12-r4-m2': 'concrete-looking searches through exists(): alias as last value, un-applied query',
+ 'C14-r4-m2': 'optional ("~") query values on keys the Sid has, in the histories',
+ 'C15-r4-m2': 'GetFromPaths.get over entities sharing a sidecar, records collected before being read (worker) and compared with find',
+ 'C15-r4-m3': 'histories for every ordered pair of entities with a path (data to the first, then to the second)',
+ 'C16-r4-m1': "the oracle knows what was stored: 'sid' must be omitted when the encoder returns None",
+ 'C16-r4-m2': 'a non-injective encoder (last value) and searches whose results encode alike; GetFromAll count = FindInAll count for types with a Getter',
  'C20-r3-m2': 'NOT CAUGHT: needs overlapping key_patterns groups (precedence between them is not a documented convention); see DESIGN.md I.7',
 }
 res = {}
@@ -33,7 +42,7 @@ for line in open(os.path.join(V, 'notes', 'seed_sweep_results.txt')):
         k, v = line.split(' | ', 1)
         res[k.strip()] = v.strip()
 for d in sorted(os.listdir(os.path.join(V, 'seeded'))):
-    if '-r2-' not in d and '-r3-' not in d:
+    if '-r2-' not in d and '-r3-' not in d and '-r4-' not in d:
         continue
     dd = os.path.join(V, 'seeded', d)
     note = open(os.path.join(dd, 'note.txt')).read().strip() if os.path.exists(os.path.join(dd, 'note.txt')) else ''
@@ -42,7 +51,7 @@ for d in sorted(os.listdir(os.path.join(V, 'seeded'))):
     r = res.get(d, 'not run')
     caught = 'VIOLATION' in r
     meta = {
-        'property': prop, 'round': 2 if '-r2-' in d else 3,
+        'property': prop, 'round': 2 if '-r2-' in d else (3 if '-r3-' in d else 4),
         'breaks': note,
         'needs_to_manifest': note.splitlines()[-1] if note else '',
         'confirmed': 'patch applied in a scratch worktree: repository test suite unchanged (46 passed, 1 known failure); demo.py exits 1 with the patch and 0 without',
